@@ -25,6 +25,23 @@ ASSUMPTIONS = [
     "the complete-indicator coding on fully crossed data (a test, not a theorem: the bridge from "
     "the partition of C03 to rank is mathematics outside Lean)",
 ]
+ASSUMPTIONS += [
+    "prediction stage, independent of the effect object: for a term none of whose effect variables was "
+    "changed in the new frame (row r of the new frame is training row src[r] as far as the effect "
+    "goes), e's values on the new rows are NOT asked from term.expr again but read by Lean from the "
+    "training block (Spec.C05.trainEffectRows: the own slot of the source row) and the derived block "
+    "is judged by Spec.C05.checkNewFromTraining; for every judged term of every new frame the derived "
+    "block must have the training slots (+ the appended one iff a cell is unseen), each as wide as at "
+    "training (Spec.C05.newWidthOk), and the labels of the derived object's term must still be one "
+    "per training column, group-major `<effect column>|<comp[level]:...>` (Spec.C05.labelsOk, also "
+    "judged at training); one more new frame per design consists of unchanged training rows",
+    "the generator also writes one effect over a sum / nesting of grouping factors together with a "
+    "group intercept for only one of the resulting factors, in either order: (1 | A) + (0 + e | A + B), "
+    "(0 + e | A/B) + (1 | A:B), (e | A + B) - (1 | B), ...",
+    "the coding-rule stage is repeated on group.evaluate_new_data(a copy of the training frame): the "
+    "columns of every grouping factor read from the derived object must be independent and span the "
+    "same reference space",
+]
 TRUSTED = ["scipy.linalg.khatri_rao is modelled by the row product (Model/Matrices.lean:khatriRao)"]
 
 EFFECTS = ["1", "x", "f", "x + f", "0 + f", "f:x", "z", "0 + x", "h", "center(x)", "x + z", "C(k)",
@@ -33,7 +50,7 @@ EFFECTS = ["1", "x", "f", "x + f", "0 + f", "f:x", "z", "0 + x", "h", "center(x)
 GROUPINGS = ["g", "h", "g:h", "C(k)", "g + h", "g/h", "cu", "co", "k", "co:h", "T(g, 'v')"]
 # grouping factors that ask for sum-to-zero coding (known finding D30), drawn now and then
 SUM_GROUPINGS = ["S(g)", "C(h, Sum)", "g:S(h)"]
-CORPUS = ["y ~ (f:h | g)", "y ~ (0 + f + h | g)", "y ~ (f | g + h) - (1 | h)", "y ~ (x | g:h)",
+CORPUS = ["y ~ (1 | g) + (0 + f | g + h)", "y ~ (0 + h | g/f) + (1 | g:f)", "y ~ (f:h | g)", "y ~ (0 + f + h | g)", "y ~ (f | g + h) - (1 | h)", "y ~ (x | g:h)",
           "y ~ (1 | g/h)", "y ~ (0 + f | g)", "y ~ (f + x | co)", "y ~ x + (x | k)",
           "y ~ (1 | S(g))", "y ~ (x | C(h, Sum))", "y ~ (1 | T(g, 'v'))",
           # several grouping factors, effects with non-integer values (prediction stage: slots and
@@ -61,6 +78,53 @@ def rank(rows):
         rk += 1
         c += 1
     return rk
+
+
+MULTI_EFFECTS = ["f", "h", "cu", "co", "C(k)", "f + x", "x", "f:x", "bs(x, df=3)", "T(f, 'b')", "f + z",
+                 "S(f)", "x + z"]
+FACTOR_POOL = ["g", "h", "f", "cu", "co", "k", "C(k)"]
+
+
+def _vars(expr):
+    for ch in "()+:/,'":
+        expr = expr.replace(ch, " ")
+    return set(expr.split())
+
+
+def gen_multi(r):
+    """one effect distributed over a sum / nesting of grouping factors, with a group intercept for
+    only one of the factors that result (written before or after), or with the distributed
+    intercepts of all the other factors removed again"""
+    eff = r.choice(MULTI_EFFECTS)
+    pool = [v for v in FACTOR_POOL if not (_vars(v) & _vars(eff))]
+    a = r.choice(pool)
+    pool = [v for v in pool if not (_vars(v) & _vars(a))]
+    b = r.choice(pool)
+    pool = [v for v in pool if not (_vars(v) & _vars(b))]
+    shape = r.choice(["sum", "sum", "nest", "sum3"])
+    if shape == "sum3" and pool:
+        c = r.choice(pool)
+        grp, factors = f"{a} + {b} + {c}", [a, b, c]
+    elif shape == "nest":
+        grp, factors = f"{a}/{b}", [a, f"{a}:{b}"]
+    else:
+        grp, factors = f"{a} + {b}", [a, b]
+    own = r.choice(factors)
+    style = r.choice(["icpt_first", "icpt_last", "minus", "icpt_first", "icpt_last"])
+    if style == "minus":            # implicit intercepts for all factors, all but one removed
+        return f"y ~ ({eff} | {grp})" + "".join(f" - (1 | {x})" for x in factors if x != own)
+    slope = f"(0 + {eff} | {grp})"
+    icpt = f"(1 | {own})"
+    extra = r.choice(["", "", " + x", " + f"])
+    return "y ~ " + (f"{icpt} + {slope}" if style == "icpt_first" else f"{slope} + {icpt}") + extra
+
+
+def term_labels(t):
+    try:
+        labs = t.labels
+        return None if labs is None else [str(l) for l in labs]
+    except Exception:  # noqa
+        return None
 
 
 def gen_case(r):
@@ -128,7 +192,10 @@ def coding_rule_stage(res, tier, seed, open_ids):
             "y ~ x + (0 + f | g) + f + (1 | g)", "y ~ (0 + f:h | g) + (0 + x | g)",
             # several grouping factors: the coding of one must not depend on the others
             "y ~ (x | g) + (0 + h | f)", "y ~ (0 + h | f) + (x | g)", "y ~ (1 | g) + (0 + h | g + f)",
-            "y ~ (x | f) + (0 + x | g) + (0 + h | g)", "y ~ (h | g) + (0 + f | h)"]
+            "y ~ (x | f) + (0 + x | g) + (0 + h | g)", "y ~ (h | g) + (0 + f | h)",
+            # one effect over a sum / nesting of factors, group intercept for one of them only
+            "y ~ (0 + h | g + f) + (1 | f)", "y ~ (0 + f | h/g) + (1 | h)", "y ~ (f | g + h) - (1 | h)",
+            "y ~ (1 | g) + (0 + f + x | g + h)", "y ~ (1 | h) + (0 + f | g + h) + x"]
         for formula in forms:
             res.evaluations += 1
             case = {"formula": formula, "seed_path": f"rule{rep}"}
@@ -138,6 +205,14 @@ def coding_rule_stage(res, tier, seed, open_ids):
                 res.count("rule_impl_error:" + type(e).__name__)
                 continue
             all_terms = list(dm.group.terms.values())
+            # the same columns read from the object derived for (a copy of) the training frame
+            try:
+                with warnings.catch_warnings():
+                    warnings.simplefilter("ignore")
+                    new = dm.group.evaluate_new_data(df.copy())
+            except Exception as e:  # noqa  (C06's subject)
+                new = None
+                res.count("rule_prediction_error:" + type(e).__name__)
             factors = []
             for t in all_terms:
                 if t.factor.name not in factors:
@@ -146,7 +221,15 @@ def coding_rule_stage(res, tier, seed, open_ids):
                 if ":" in fac:
                     continue
                 terms = [t for t in all_terms if t.factor.name == fac]
-                z = np.column_stack([dm.group[t.name] for t in terms])
+                z_train = np.column_stack([dm.group[t.name] for t in terms])
+                sources = [("training", z_train)]
+                if new is not None:
+                    z_new = np.column_stack([np.asarray(new[t.name]) for t in terms])
+                    if z_new.shape == z_train.shape and np.array_equal(z_new, z_train):
+                        res.count("rule_cases: evaluate_new_data(training frame) gives the training "
+                                  "columns (same verdict)")
+                    else:
+                        sources.append(("group.evaluate_new_data(training frame)", z_new))
                 exprs, flags = [], []
                 for t in terms:
                     if isinstance(t.expr, Intercept):
@@ -156,57 +239,60 @@ def coding_rule_stage(res, tier, seed, open_ids):
                         flags.append([t.name, [[str(c.name), bool(c.spans_intercept)]
                                                for c in t.expr.components if c.kind == "categoric"]])
                 ref = full_indicator_reference(df, exprs, fac)
-                rz = rank(z.tolist())
                 rr = rank(ref.tolist())
-                rj = rank(np.column_stack([z, ref]).tolist())
-                res.count("rule_cases")
-                ok = rz == z.shape[1] and rz == rr == rj
-                res.nontrivial.add((formula, fac, rep))
-                has_icpt = any(isinstance(t.expr, Intercept) for t in terms)
-                if ok:
-                    continue
-                # recorded defect classes D11 / D12: the rule the code uses ("reduced iff (1 | g) is
-                # in the model") differs from the common-effects analysis (C03) of the effect family,
-                # decided by the Lean driver
-                fam = []
-                for t in terms:
-                    if isinstance(t.expr, Intercept):
-                        fam.append({"i": True})
-                    else:
-                        fam.append({"c": [[str(c.name), "c" if c.kind == "categoric" else "n", False]
-                                          for c in t.expr.components]})
-                used = [[":".join(str(c.name) for c in t.expr.components),
-                         [[str(c.name), bool(c.spans_intercept)] for c in t.expr.components
-                          if c.kind == "categoric"]]
-                        for t in terms if not isinstance(t.expr, Intercept)]
-                rule = ask([{"op": "c05_rule", "family": fam, "used": used}])[0]
-                cls = None
-                # (b) the flags must be the ones the recorded rule predicts (Model/Pipeline.lean:
-                # reduced iff (1 | same factor) is among the group terms); a different deviation
-                # from the C03 analysis is not the recorded defect
-                predicted = all(fl == (not has_icpt) for _, cf in flags for _, fl in cf)
-                if not rule["agrees"] and predicted:
-                    cls = "KF-C05-D11" if rule.get("has_intercept") else "KF-C05-D12"
-                fid = cls if cls in open_ids else None
-                if fid:
-                    res.known_hit[fid] = res.known_hit.get(fid, 0) + 1
-                res.failures.append({"case": dict(case, factor=fac),
-                                     "impl": {"columns": int(z.shape[1]), "rank": rz,
-                                              "rank_reference": rr, "rank_joint": rj, "flags": flags},
-                                     "expected": "independent columns spanning the group-by-cell means",
-                                     "finding": fid,
-                                     "why": f"columns of grouping factor {fac}: {z.shape[1]} columns, "
-                                            f"rank {rz}, reference space rank {rr}, joint rank {rj}"})
+                for src, z in sources:
+                    rz = rank(z.tolist())
+                    rj = rank(np.column_stack([z, ref]).tolist())
+                    res.count("rule_cases")
+                    ok = rz == z.shape[1] and rz == rr == rj
+                    res.nontrivial.add((formula, fac, rep))
+                    has_icpt = any(isinstance(t.expr, Intercept) for t in terms)
+                    if ok:
+                        continue
+                    # recorded defect classes D11 / D12: the rule the code uses ("reduced iff (1 | g) is
+                    # in the model") differs from the common-effects analysis (C03) of the effect family,
+                    # decided by the Lean driver
+                    fam = []
+                    for t in terms:
+                        if isinstance(t.expr, Intercept):
+                            fam.append({"i": True})
+                        else:
+                            fam.append({"c": [[str(c.name), "c" if c.kind == "categoric" else "n", False]
+                                              for c in t.expr.components]})
+                    used = [[":".join(str(c.name) for c in t.expr.components),
+                             [[str(c.name), bool(c.spans_intercept)] for c in t.expr.components
+                              if c.kind == "categoric"]]
+                            for t in terms if not isinstance(t.expr, Intercept)]
+                    rule = ask([{"op": "c05_rule", "family": fam, "used": used}])[0]
+                    cls = None
+                    # (b) the flags must be the ones the recorded rule predicts (Model/Pipeline.lean:
+                    # reduced iff (1 | same factor) is among the group terms); a different deviation
+                    # from the C03 analysis is not the recorded defect
+                    predicted = all(fl == (not has_icpt) for _, cf in flags for _, fl in cf)
+                    if not rule["agrees"] and predicted:
+                        cls = "KF-C05-D11" if rule.get("has_intercept") else "KF-C05-D12"
+                    fid = cls if cls in open_ids else None
+                    if fid:
+                        res.known_hit[fid] = res.known_hit.get(fid, 0) + 1
+                    res.failures.append({"case": dict(case, factor=fac, columns_of=src),
+                                         "impl": {"columns": int(z.shape[1]), "rank": rz,
+                                                  "rank_reference": rr, "rank_joint": rj, "flags": flags},
+                                         "expected": "independent columns spanning the group-by-cell means",
+                                         "finding": fid,
+                                         "why": f"columns of grouping factor {fac} ({src}): {z.shape[1]} columns, "
+                                                f"rank {rz}, reference space rank {rr}, joint rank {rj}"})
 
 
 GROUP_VARS = ["f", "g", "h", "cu", "co", "k"]
 
 
-def new_frames(r, df, dm, n_new):
-    """-> [(new frame, mode, {var: [rows]})]: rows of the training frame; numeric columns moved to
-    midpoints of training values (stay inside the training range, mostly non-integer); grouping
-    values replaced by unseen labels (one or two distinct ones per variable) in the variables of the
-    earliest grouping factor only, the latest only, all of them, a random subset, or none"""
+def new_frames(r, df, dm, n_new, r_plain=None):
+    """-> [(new frame, mode, {var: [rows]}, source rows, moved columns)]: rows of the training frame;
+    numeric columns moved to midpoints of training values (stay inside the training range, mostly
+    non-integer); grouping values replaced by unseen labels (one or two distinct ones per variable) in
+    the variables of the earliest grouping factor only, the latest only, all of them, a random subset,
+    or none.  With `r_plain` one more frame, drawn from that generator, whose numeric columns are NOT
+    moved (unchanged training rows apart from the unseen grouping labels)."""
     factors = []                                  # variables of each grouping factor, in term order
     for t in dm.group.terms.values():
         vs = sorted(v for v in t.factor.var_names if v in GROUP_VARS)
@@ -214,12 +300,14 @@ def new_frames(r, df, dm, n_new):
             factors.append(vs)
     allv = sorted({v for vs in factors for v in vs})
     out = []
-    for _ in range(n_new):
+    for r, may_move in [(r, True)] * n_new + ([(r_plain, False)] if r_plain is not None else []):
         idx = [r.randrange(len(df)) for _ in range(r.randrange(3, 9))]
         nd = df.iloc[idx].reset_index(drop=True).copy()
-        for col in ("x", "z"):
+        moved = []
+        for col in ("x", "z") if may_move else ():
             if r.random() < 0.7:
                 nd[col] = [(float(a) + float(df[col].iloc[r.randrange(len(df))])) / 2 for a in nd[col]]
+                moved.append(col)
         pattern = r.choice(["first", "last", "all", "subset", "subset", "none"]) if allv else "none"
         chosen = {"first": factors[0] if factors else [], "last": factors[-1] if factors else [],
                   "all": allv, "none": [],
@@ -235,19 +323,22 @@ def new_frames(r, df, dm, n_new):
                 nd.loc[k, v] = labels[i % 2] if two else labels[0]
             placed[v] = rows
         mode = r.choice(["silent", "warning"] if placed else ["silent", "warning", "error"])
-        out.append((designs.scramble_index(r, nd), mode, placed))
+        out.append((designs.scramble_index(r, nd), mode, placed, idx, moved))
     return out
 
 
-def prediction_requests(r, formula, df, dm, req_names, n_new, res):
-    """-> [(case extension, c05_new_spec request, term names)] for the objects returned by
+def prediction_requests(r, formula, df, dm, req, n_new, res, r_plain=None):
+    """-> [(case extension, c05_new_spec request)] for the objects returned by
     group.evaluate_new_data on generated new frames"""
     import formulae
     from formulae.terms import Intercept
     out = []
-    for j, (nd, mode, placed) in enumerate(new_frames(r, df, dm, n_new)):
+    used_cols = [c for c in df.columns if c in dm.model.var_names]
+    train_frame = designs.frame_json(designs.dm_frame(dm, df)[used_cols])
+    for j, (nd, mode, placed, idx, moved) in enumerate(new_frames(r, df, dm, n_new, r_plain)):
         old = formulae.config["EVAL_UNSEEN_CATEGORIES"]
         formulae.config["EVAL_UNSEEN_CATEGORIES"] = mode
+        changed = set(moved) | set(placed)
         try:
             with warnings.catch_warnings():
                 warnings.simplefilter("ignore")
@@ -255,9 +346,16 @@ def prediction_requests(r, formula, df, dm, req_names, n_new, res):
                 terms = []
                 for name, t in dm.group.terms.items():
                     x = np.ones(len(nd)) if isinstance(t.expr, Intercept) else t.expr.eval_new_data(nd)
-                    terms.append({"name": name, "factor": [str(c.name) for c in t.factor.components],
-                                  "groups": list(t.groups), "x": designs.mat(x),
-                                  "z": designs.mat(new[name])})
+                    term = {"name": name, "factor": [str(c.name) for c in t.factor.components],
+                            "groups": list(t.groups), "x": designs.mat(x),
+                            "z": designs.mat(new[name]),
+                            "train_width": int(np.asarray(dm.group[name]).shape[1]),
+                            "labels": term_labels(new.terms[name])}
+                    # no variable of the effect was changed: e's values on the new rows are those of
+                    # the source rows, read by Lean from the training block (not from t.expr)
+                    if isinstance(t.expr, Intercept) or not (set(t.expr.var_names) & changed):
+                        term["z_train"] = designs.mat(dm.group[name])
+                    terms.append(term)
                 slices = [[k, sl.start, sl.stop] for k, sl in new.slices.items()]
         except Exception as e:  # noqa  (whether a new frame may be refused is C10's subject)
             res.count("prediction_error:" + type(e).__name__)
@@ -266,12 +364,51 @@ def prediction_requests(r, formula, df, dm, req_names, n_new, res):
             formulae.config["EVAL_UNSEEN_CATEGORIES"] = old
         res.count("prediction_objects")
         used = sorted(v for v in dm.model.var_names if v in nd.columns)
-        out.append(({"stage": "prediction", "new": j, "mode": mode,
-                     "unseen": {v: rows for v, rows in placed.items()}},
+        out.append(({"stage": "prediction", "new": j, "mode": mode, "source_rows": idx,
+                     "moved": moved, "unseen": {v: rows for v, rows in placed.items()}},
                     {"op": "c05_new_spec", "_rows": {v: nd[v].tolist() for v in used},
                      "_slices": slices, "formula": formula, "frame": designs.frame_json(nd),
-                     "names": req_names, "terms": terms}))
+                     "train_frame": train_frame, "src": idx,
+                     "names": req["names"], "terms": terms}))
     return out
+
+
+def judge_new(res, owners_new, reqs_new):
+    """Spec.C05.checkNew / checkNewFromTraining / newWidthOk / labelsOk on the derived objects"""
+    if not reqs_new:
+        return
+    for case, rq, sp in zip(owners_new, reqs_new, ask(reqs_new)):
+        if "err" in sp:
+            res.count("prediction_spec_skip:" + sp["err"])
+            continue
+        for t, v in zip(rq["terms"], sp["terms"]):
+            if v.get("class_d30"):
+                res.count("prediction_term_skip:class-D30 (sum-coded grouping factor)")
+                continue
+            if "err" in v:
+                res.count("prediction_term_skip:" + v["err"] + ":" + str(v.get("what"))[:40])
+                continue
+            res.count("prediction_terms_judged" + ("_with_unseen_group" if v["any_unseen"] else ""))
+            if case["unseen"]:
+                res.nontrivial.add((case["formula"], case["seed_path"], "new", case["new"]))
+            if v.get("from_training"):
+                res.count("prediction_terms_judged_against_the_training_block")
+            bad = [k for k in ("blocks_ok", "width_ok", "labels_ok") if v.get(k) is False]
+            if bad:
+                res.failures.append({
+                    "case": case, "finding": None,
+                    "impl": {"term": t["name"], "groups": t["groups"], "new_frame": rq["_rows"],
+                             "slices": rq["_slices"], "labels": t["labels"],
+                             "training_columns": t["train_width"],
+                             "columns": len(t["z"][0]) if t["z"] else 0,
+                             "effect_values": "own slot of the source rows in the training block"
+                             if v.get("from_training") else "term.expr.eval_new_data(new frame)",
+                             "x": None if v.get("from_training") else t["x"], "z": t["z"]},
+                    "expected": "every row non-zero only in the slot of its own group (the appended "
+                                "slot for an unseen group), carrying e's values there; slots as wide "
+                                "as at training; one label per training column",
+                    "why": f"block {t['name']} of group.evaluate_new_data(new frame) read through "
+                           "new[name]: " + ", ".join(bad) + " violated"})
 
 
 def explore(tier, seed, res=None, replay=None):
@@ -281,7 +418,12 @@ def explore(tier, seed, res=None, replay=None):
                 "group-specific term with a non-intercept effect or an interaction grouping; distinct "
                 "by formula and frame seed; each design followed by 2 (thorough: 3) new frames with "
                 "unseen groups in the earliest / latest / all / some grouping factors and non-integer "
-                "effect values, block structure judged on the derived objects' per-term blocks")
+                "effect values plus one frame of unchanged training rows, block structure / slot "
+                "widths / labels judged on the derived objects' per-term blocks (effect values read "
+                "from the training block where the effect's variables are unchanged); 80 (thorough: "
+                "1500) more designs with one effect over a sum / nesting of grouping factors and a "
+                "group intercept for only one of the factors; coding-rule stage on the training "
+                "matrix and on evaluate_new_data(training frame)")
     n_cases = 400 if tier == "quick" else 15000
     cases = []
     if replay is not None:
@@ -291,12 +433,16 @@ def explore(tier, seed, res=None, replay=None):
             cases.append((f, len(cases)))
         for _ in range(n_cases):
             cases.append((None, len(cases)))
+        for i in range(80 if tier == "quick" else 1500):
+            cases.append((None, f"m{i}"))
     reqs_spec, reqs_model, owners = [], [], []
     reqs_new, owners_new = [], []
     for f, path in cases:
         r = rng_for(seed, "c05", path)
         df = designs.gen_frame(r, n=r.randrange(12, 30))
-        formula = f or gen_case(r)
+        formula = f or (gen_multi(r) if str(path).startswith("m") else gen_case(r))
+        if str(path).startswith("m"):
+            res.count("formulas: one effect over a sum / nesting of factors, intercept for one only")
         res.evaluations += 1
         obs, req = designs.observe(formula, df, designs.NAMES)
         case = {"formula": formula, "seed_path": path}
@@ -313,16 +459,20 @@ def explore(tier, seed, res=None, replay=None):
             x = np.ones(n) if isinstance(t.expr, Intercept) else t.expr.data
             terms.append({"name": name, "factor": [str(c.name) for c in t.factor.components],
                           "groups": list(t.groups), "x": designs.mat(x),
-                          "z": designs.mat(dm.group[name])})
+                          "z": designs.mat(dm.group[name]), "labels": term_labels(t)})
         reqs_spec.append({"op": "c05_spec", "formula": formula, "frame": req["frame"],
                           "names": req["names"], "terms": terms})
         reqs_model.append(req)
         owners.append((case, obs, terms))
         # the objects derived for new frames (own PRNG stream: the training stage is unchanged)
         for ext, rq in prediction_requests(rng_for(seed, "c05", "new", path), formula, df, dm,
-                                           req["names"], 2 if tier == "quick" else 3, res):
+                                           req, 2 if tier == "quick" else 3, res,
+                                           rng_for(seed, "c05", "new-plain", path)):
             reqs_new.append(rq)
             owners_new.append(dict(case, **ext))
+        if len(reqs_new) >= 600:         # (bounded memory: the requests carry the training blocks)
+            judge_new(res, owners_new, reqs_new)
+            reqs_new, owners_new = [], []
         if any(not t["name"].startswith("1|") or ":" in t["name"] for t in terms):
             res.nontrivial.add((formula, path))
         if len(res.samples) < 6:
@@ -344,6 +494,10 @@ def explore(tier, seed, res=None, replay=None):
                     continue
                 res.count("group_terms_judged")
                 bad = [k for k in ("groups_ok", "blocks_ok", "rows_in_one_group") if not v[k]]
+                if v.get("labels_ok") is False and not v.get("class_d30"):
+                    bad.append("labels_ok")
+                if v.get("labels_ok") is not None and not v.get("class_d30"):
+                    res.count("term_labels_judged")
                 if bad:
                     # D30: known only inside the Lean class (a grouping component asks for Sum
                     # coding) and only when the implementation's groups (and, where the effects
@@ -353,7 +507,10 @@ def explore(tier, seed, res=None, replay=None):
                             and v.get("model_groups") == t["groups"]):
                         fid = "KF-C05-D30"
                         res.known_hit[fid] = res.known_hit.get(fid, 0) + 1
-                    res.failures.append({"case": case, "impl": {"term": t["name"], "groups": t["groups"]},
+                    res.failures.append({"case": case, "impl": {"term": t["name"], "groups": t["groups"],
+                                                                "labels": t.get("labels"),
+                                                                "columns": len(t["z"][0]) if t["z"] else 0,
+                                                                "effect_columns": len(t["x"][0]) if t["x"] else 0},
                                          "expected": "block structure", "finding": fid,
                                          "why": f"group-specific term {t['name']}: " + ", ".join(bad)})
                 elif v.get("class_d30"):
@@ -365,29 +522,7 @@ def explore(tier, seed, res=None, replay=None):
         diffs = designs.compare(obs, mo)
         if diffs:
             res.mismatches.append({"case": case, "diff": diffs[:5]})
-    for case, rq, sp in zip(owners_new, reqs_new, ask(reqs_new)):
-        if "err" in sp:
-            res.count("prediction_spec_skip:" + sp["err"])
-            continue
-        for t, v in zip(rq["terms"], sp["terms"]):
-            if v.get("class_d30"):
-                res.count("prediction_term_skip:class-D30 (sum-coded grouping factor)")
-                continue
-            if "err" in v:
-                res.count("prediction_term_skip:" + v["err"] + ":" + str(v.get("what"))[:40])
-                continue
-            res.count("prediction_terms_judged" + ("_with_unseen_group" if v["any_unseen"] else ""))
-            if case["unseen"]:
-                res.nontrivial.add((case["formula"], case["seed_path"], "new", case["new"]))
-            if not v["blocks_ok"]:
-                res.failures.append({
-                    "case": case, "finding": None,
-                    "impl": {"term": t["name"], "groups": t["groups"], "new_frame": rq["_rows"],
-                             "slices": rq["_slices"], "x": t["x"], "z": t["z"]},
-                    "expected": "every row non-zero only in the slot of its own group (the appended "
-                                "slot for an unseen group), carrying e's values there",
-                    "why": f"block {t['name']} of group.evaluate_new_data(new frame) read through "
-                           "new[name]: block structure violated"})
+    judge_new(res, owners_new, reqs_new)
     if replay is None or str(replay.get("seed_path", "")).startswith("rule"):
         coding_rule_stage(res, tier, seed, {k["id"] for k in known_findings("C05")})
     return res
